@@ -9,6 +9,8 @@ package doccomposer
 import (
 	"encoding/json"
 	"fmt"
+	"strconv"
+	"strings"
 
 	jsonpatch "github.com/evanphx/json-patch"
 
@@ -120,7 +122,62 @@ func applyJSONPatchOperation(docBytes []byte, op jsonpatch.Patch) (result []byte
 		}
 	}()
 
+	if targetsOwnSource(op) {
+		return nil, fmt.Errorf("json patch operation failed: cannot move or copy a location into one of its children")
+	}
+
 	return op.Apply(docBytes)
+}
+
+// targetsOwnSource reports whether a move/copy operation names a target below its own source. The patch library
+// links the source node into the target instead of copying it, so such an operation would make the document
+// contain itself and serializing it would never end.
+func targetsOwnSource(op jsonpatch.Patch) bool {
+	for _, o := range op {
+		var kind, from, path string
+
+		if !stringMember(o["op"], &kind) || !stringMember(o["from"], &from) || !stringMember(o["path"], &path) {
+			continue
+		}
+
+		if (kind == "copy" || kind == "move") && isBelow(path, from) {
+			return true
+		}
+	}
+
+	return false
+}
+
+func stringMember(msg *json.RawMessage, s *string) bool {
+	return msg != nil && json.Unmarshal(*msg, s) == nil
+}
+
+var pointerTokenDecoder = strings.NewReplacer("~1", "/", "~0", "~")
+
+// isBelow reports whether JSON pointer 'path' addresses a location strictly below JSON pointer 'from'. Reference
+// tokens are compared the way the patch library resolves them: whatever precedes the first '/' is ignored, tokens
+// are unescaped, and "0", "+0" and "00" all name the first array element.
+func isBelow(path, from string) bool {
+	f, p := strings.Split(from, "/"), strings.Split(path, "/")
+	if len(p) <= len(f) {
+		return false
+	}
+
+	for i := 1; i < len(f); i++ {
+		a, b := pointerTokenDecoder.Replace(f[i]), pointerTokenDecoder.Replace(p[i])
+		if a == b {
+			continue
+		}
+
+		x, errX := strconv.Atoi(a)
+		y, errY := strconv.Atoi(b)
+
+		if errX != nil || errY != nil || x != y {
+			return false
+		}
+	}
+
+	return true
 }
 
 func applyRecover(replaceDoc interface{}) (document.Document, error) {
